@@ -41,6 +41,12 @@ var refContext = map[string]Val{
 	"contact.age": numVal(decimal.NewFromInt(7)),
 	"extra.s":     {T: 'S', S: "k1 k2 k3"},
 	"flow.num":    numVal(decimal.NewFromInt(4)),
+	// the legacy date references (used by the option space): dates without a time of day, and now
+	"date.today":     {T: 'D', D: time.Date(fixedNow.Year(), fixedNow.Month(), fixedNow.Day(), 0, 0, 0, 0, time.UTC)},
+	"date.tomorrow":  {T: 'D', D: time.Date(fixedNow.Year(), fixedNow.Month(), fixedNow.Day()+1, 0, 0, 0, 0, time.UTC)},
+	"date.yesterday": {T: 'D', D: time.Date(fixedNow.Year(), fixedNow.Month(), fixedNow.Day()-1, 0, 0, 0, 0, time.UTC)},
+	"date.now":       {T: 'D', D: fixedNow, HasTod: true},
+	"date":           {T: 'D', D: fixedNow, HasTod: true},
 }
 
 func numVal(d decimal.Decimal) Val { return Val{T: 'N', N: d, F: d.InexactFloat64()} }
